@@ -327,6 +327,170 @@ def gen_distance_calls(rng, per_fn):
     return out
 
 
+# ----------------------------------------------------------------------------- integer scalar sizes
+# Domain decision (property text: "the input corpora of the other properties (float64 C-contiguous arrays)"): ARRAY arguments are
+# always fresh float64 C-contiguous arrays, integer-valued or not -- int64 arrays are outside the declared domain and are not
+# generated.  SCALAR size arguments (radius, height, length, margin), which the docstrings call "float", may be Python ints or
+# numpy integer scalars: `Cylinder(pose, 1, 2)` is what a caller writes, Python's numeric tower accepts an int wherever a float is
+# expected, and the eager float64 signatures convert silently when compiled -- interpreted, the int survives into the body
+# (np.array([radius, 0, 0]) is then an int64 array and in-place float updates are truncated).  The class needs, in addition,
+# the rarely taken exact arms: directions exactly along a local axis / exactly zero, poses that are exact axis permutations.
+INT_SIZES = [1, 1, 2, 2, 3, 4, 5, 10]
+SCALAR_SIZE_KINDS = ["sphere", "capsule", "cylinder", "cone", "disk"]
+
+
+def NI(v):
+    return {"ni": int(v)}
+
+
+def int_scalar(rng):
+    """(value for the call, plain number): Python int (60 %), numpy int64 / int32 scalar (30 %), integer-valued float (10 %)"""
+    v = rng.choice(INT_SIZES)
+    u = rng.random()
+    if u < 0.6:
+        return v, v
+    if u < 0.8:
+        return NI(v), v
+    if u < 0.9:
+        return {"ni32": int(v)}, v
+    return float(v), v
+
+
+def exact_pose(rng):
+    """pose whose rotation block is exactly the identity / an axis permutation (mostly), a lattice rotation or random"""
+    st = rng.choice(["identity", "perm", "perm", "perm", "lattice", "random"])
+    if st == "identity":
+        Rm = np.eye(3)
+    elif st == "perm":
+        Rm = nw.AXIS_PERMS[rng.randrange(len(nw.AXIS_PERMS))].copy()
+    else:
+        Rm = nw.rand_rotation(rng, st)
+    c = nw.rand_center(rng, "random" if st == "random" else "lattice", 5.0)
+    return Rm, [float(x) for x in c]
+
+
+def exact_dirs(rng, Rm):
+    """search directions: exactly along the local z axis and another local axis (either sign, scaled by a power of two or a
+    few decades), exactly zero, a sign-boundary / random direction"""
+    out = []
+    for k in (2, rng.randrange(3)):
+        sc = rng.choice([1.0, 1.0, 2.0, 0.5, 1e-3, 1e3]) * rng.choice([1.0, -1.0])
+        out.append((sc * Rm[:, k] + 0.0).tolist())
+    out.append([0.0, 0.0, 0.0])
+    out.append(gen_dir(rng))
+    return out
+
+
+def gen_intscalar_calls(rng, n):
+    out = []
+    G, CT, CN = "distance3d.geometry", "distance3d.containment_test", "distance3d.containment"
+    for _ in range(n):
+        Rm, c = exact_pose(rng)
+        T = np.array(nw.pose_of(Rm, c))
+        (r, rv), (h, hv) = int_scalar(rng), int_scalar(rng)
+        size = [float(rng.choice(INT_SIZES)) for _ in range(3)]          # integer-valued float64 arrays
+        nrm = (Rm[:, 2] + 0.0).tolist()
+        axes = [(Rm[:, 0] + 0.0).tolist(), (Rm[:, 1] + 0.0).tolist()]
+        L = 1.0 + float(np.linalg.norm(c)) + rv + hv + max(size)
+        for d in exact_dirs(rng, Rm):
+            Ld = L * max(1.0, float(np.linalg.norm(d)))
+            out += [call(G, "support_function_cylinder", [A(d), A(T), r, h], L=Ld, fam="intscalar"),
+                    call(G, "support_function_capsule", [A(d), A(T), r, h], L=Ld, fam="intscalar"),
+                    call(G, "support_function_cone", [A(d), A(T), r, h], L=Ld, fam="intscalar"),
+                    call(G, "support_function_sphere", [A(d), A(c), r], L=Ld, fam="intscalar"),
+                    call(G, "support_function_disk", [A(d), A(c), r, A(nrm)], L=Ld, fam="intscalar"),
+                    call(G, "support_function_ellipsoid", [A(d), A(T), A(size)], L=Ld, fam="intscalar"),
+                    call(G, "support_function_box", [A(d), A(T), A(size)], L=Ld, fam="intscalar"),
+                    call(G, "support_function_ellipse", [A(d), A(c), A(axes), A(size[:2])], L=Ld, fam="intscalar")]
+        out += [call(CN, "sphere_aabb", [A(c), r], L=L, fam="intscalar"), call(CN, "cylinder_aabb", [A(T), r, h], L=L, fam="intscalar"),
+                call(CN, "capsule_aabb", [A(T), r, h], L=L, fam="intscalar"), call(CN, "disk_aabb", [A(c), r, A(nrm)], L=L, fam="intscalar"),
+                call(CN, "cone_aabb", [A(T), r, h], L=L, fam="intscalar")]
+        q = [(np.array(c) + Rm @ np.array([rng.choice([-1.0, -0.5, 0.0, 0.5, 1.0]) * rv, rng.choice([-1.0, 0.0, 0.5]) * rv,
+                                           rng.choice([-1.0, -0.5, 0.0, 0.5, 1.0]) * hv])).tolist() for _ in range(5)]
+        out += [call(CT, "points_in_sphere", [A(q), A(c), r], cls="bool", fam="intscalar"),
+                call(CT, "points_in_capsule", [A(q), A(T), r, h], cls="bool", fam="intscalar"),
+                call(CT, "points_in_disk", [A(q), A(c), r, A(nrm)], cls="bool", fam="intscalar"),
+                call(CT, "points_in_cone", [A(q), A(T), r, h], cls="bool", fam="intscalar"),
+                call(CT, "points_in_cylinder", [A(q), A(T), r, h], cls="bool", fam="intscalar")]
+    return out
+
+
+INT_DIST_FUNCS = [f for f in pl.FUNCS if any(k in ("circle", "disk", "cylinder") for k in pl.kinds_of(f))]
+
+
+def gen_intscalar_distance_calls(rng, per_fn):
+    """the distance functions that take scalar sizes (circle / disk radius, cylinder radius and length) with these scalars as
+    ints; the second primitive in an exact axis-permutation (or lattice) frame, the first one on its axis or elsewhere on the
+    lattice with its own primary direction exactly along one of the second one's axes (exactly axial / parallel /
+    perpendicular placements: the s == 0 style arms)"""
+    out = []
+    for fn in INT_DIST_FUNCS:
+        ka, kb = pl.kinds_of(fn)
+        for _ in range(per_fn):
+            for _try in range(30):
+                M = [list(r_) for r_ in rng.choice(pl.PERM_ROT)] if rng.random() < 0.7 else pl.lattice_rot(rng)
+                cB = [rng.choice([0.0, 0.0, 1.0, -2.0]) for _ in range(3)]
+                B = pl.gen_prim(rng, kb, "lattice", cB, m=M)
+                sh = rng.randrange(3)
+                Ma = [[M[i][(j + sh) % 3] for j in range(3)] for i in range(3)]       # cyclic column permutation: a rotation
+                if rng.random() < 0.6:
+                    hgt = rng.choice([0.0, 0.5, 1.0, 2.0, -1.0, 4.0, -0.25])
+                    cA = [cB[i] + hgt * M[i][2] for i in range(3)]                     # on the axis of B
+                else:
+                    cA = [cB[i] + rng.choice(pl.LAT_OFFS) for i in range(3)]
+                A_ = pl.gen_prim(rng, ka, "lattice", cA, m=Ma)
+                typed, plain = [], []
+                for P in (A_, B):
+                    tp, fp = dict(P), dict(P)
+                    for key in ("r", "l"):
+                        if key in P:
+                            tv, v = int_scalar(rng)
+                            tp[key], fp[key] = tv, float(v)
+                    typed.append(tp)
+                    plain.append(fp)
+                if pl.in_domain(plain[0], plain[1]):
+                    break
+            pc = dict(fn=fn, A=plain[0], B=plain[1], stream="intscalar")
+            args = pl.prim_args(typed[0]) + pl.prim_args(typed[1])
+            out.append(dict(k="distint", fam="intscalar-distance", case=dict(fn=fn, args=args), pcase=pc,
+                            L=pl.scale_L(plain[0], plain[1])))
+    return out
+
+
+def gen_intscalar_collider_calls(rng, n):
+    """collider pairs whose scalar sizes are ints (Python ints, or numpy int64 scalars for half of the calls), lattice poses:
+    support function / centre along the colliders' own axes, the coordinate axes and the zero direction, and the full query
+    set (every solver starts from axis-aligned search directions)"""
+    out = []
+    for i in range(n):
+        k1 = rng.choice(SCALAR_SIZE_KINDS)
+        k2 = rng.choice(SCALAR_SIZE_KINDS) if rng.random() < 0.5 else rng.choice(nw.KINDS)
+        specs = []
+        for k in (k1, k2):
+            sp = nw.gen_collider(rng, k, "lattice", margin_prob=0.1)
+            if rng.random() < 0.3 and "pose" in sp:
+                Tn = np.array(sp["pose"])
+                Tn[:3, :3] = np.eye(3)
+                sp["pose"] = Tn.tolist()
+            for key in ("radius", "height", "length", "margin"):
+                if key in sp and k in SCALAR_SIZE_KINDS:
+                    sp[key] = int(rng.choice(INT_SIZES[:6])) if key != "margin" else 1
+            specs.append(sp)
+        s1, s2 = specs
+        dirs = [[0.0, 0.0, 0.0], [0.0, 0.0, 1.0], [0.0, 0.0, -1.0], [1.0, 0.0, 0.0], [0.0, -2.0, 0.0]]
+        for sp in (s1, s2):
+            for a in c12.own_axes(sp):
+                dirs.append([x + 0.0 for x in a])
+                dirs.append([-x + 0.0 for x in a])
+        sc = dict(c1=s1, c2=s2, dirs=dirs, meta=dict(stream="intscalar", kinds=[k1, k2], L=nw.scene_scale([s1, s2])))
+        if i % 3 == 0:
+            sc["only_support"] = True
+        ops = [dict(o, timeout=0) for o in c12.scene_ops(sc) if o.get("tag") != "mpr_fine"]
+        out.append(dict(k="collider", fam="intscalar-collider", c1=s1, c2=s2, ops=ops, raw_scalars=True, np_scalars=bool(i % 2),
+                        L=sc["meta"]["L"], meta=sc["meta"], budget=600.0))
+    return out
+
+
 def gen_collider_calls(rng, n, tier):
     out = []
     for _ in range(n):
@@ -913,7 +1077,7 @@ def run_list(calls, jit, tag, timeout):
 
 def family(c):
     if c["k"] == "call":
-        return c["mod"].replace("distance3d.", "")
+        return c.get("fam") or c["mod"].replace("distance3d.", "")
     if c["k"] == "worker":
         return c.get("fam", c["module"])
     return c.get("fam", c["k"])
@@ -933,7 +1097,10 @@ def run(tier, seed, replay=None):
         "directions with sign-boundary components {0,+-1,+-1e-300,+-1e-9}, lattice and random poses, points on exact boundaries), GJK "
         "simplex kernels and half-plane kernels on lattice/coincident/collinear points, the 34 distance functions (primlib streams), "
         "collider pairs through all GJK flavours/MPR/EPA (C12 scenes), MeshGraph support sequences incl. exact face normals, AABB tree "
-        "histories of C05 plus empty-tree queries, and cases of the C06/C14/C15/C16 generators through their workers; distinct by "
+        "histories of C05 plus empty-tree queries, cases of the C06/C14/C15/C16 generators through their workers, and the intscalar "
+        "families (scalar sizes as Python ints / numpy integer scalars with exact axis-permutation poses and exactly axial / exactly "
+        "zero directions: support functions, AABBs, containment predicates, the 7 distance functions with scalar sizes, collider "
+        "pairs built without float()); distinct by "
         "canonical hash of the call; non-trivial = both modes returned and at least one value was compared")
     R.assumptions += [
         "interpreted mode = NUMBA_DISABLE_JIT=1 as the README prescribes; compiled mode uses the on-disk numba cache of this checkout",
@@ -942,6 +1109,11 @@ def run(tier, seed, replay=None):
         "decision boundary",
         "points returned by iterative solvers are not pinned by their properties where the optimum is not unique: their agreement is "
         "reported as a distribution, distances/depths/booleans are judged",
+        "domain decision for argument TYPES (property text: 'the input corpora of the other properties (float64 C-contiguous arrays)'): "
+        "array arguments are always fresh float64 C-contiguous arrays (integer-valued ones included; int64 arrays are outside the "
+        "declared domain and are not generated); SCALAR size arguments (radius, height, length, margin), documented as 'float', are also "
+        "passed as Python ints and numpy integer scalars (families intscalar, intscalar-distance, intscalar-collider): an int is "
+        "acceptable wherever a float is expected and the eager float64 signatures convert it silently when compiled",
     ]
     if (cm.COQ / "theories" / "Props" / "C20.v").exists():
         R.check_proofs(PROOF_FILES, build_targets=["theories/Props/C20.vo"])
@@ -981,6 +1153,9 @@ def run(tier, seed, replay=None):
         calls += gen_collider_calls(R.rng, 36 if q else 300, tier)
         calls += gen_nesterov_calls(R.rng, 1000 if q else 8000)
         calls += gen_mesh_calls(R.rng, 12 if q else 100)
+        calls += gen_intscalar_calls(R.rng, 24 if q else 200)
+        calls += gen_intscalar_distance_calls(R.rng, 8 if q else 60)
+        calls += gen_intscalar_collider_calls(R.rng, 24 if q else 200)
         calls += gen_tree_calls(R.rng, 10 if q else 80, tier)
         calls += gen_foreign_calls(R.rng, tier, notes)
         if cm.os.environ.get("C20_FAMILIES"):            # development aid only
@@ -1026,7 +1201,7 @@ def run(tier, seed, replay=None):
                 what = f"collider {c['c1']['kind']}/{c['c2']['kind']}: " + "; ".join(fs[:3])
             fam_cmp[fam] = fam_cmp.get(fam, 0) + 1
             distinct.add(cm.canon_hash([c["c1"], c["c2"]]))
-        elif c["k"] == "worker" and c.get("module") == "c10":
+        elif (c["k"] == "worker" and c.get("module") == "c10") or c["k"] == "distint":
             what = compare_distance(c, a["ok"]["json"], b["ok"]["json"], T)
             fam_cmp[fam] = fam_cmp.get(fam, 0) + 1
             distinct.add(cm.canon_hash(c["pcase"]))
